@@ -110,7 +110,7 @@ def _grow(rnd, o):
                 add_edge(u, v)
         elif r < o['p_sel'] + o['p_merge'] + o['p_cycle'] and len(named) > 2:
             v = rnd.choice(named)
-            anc = [a for a in parent_chain.get(v, ()) if a != v and a not in start]
+            anc = sorted(a for a in parent_chain.get(v, ()) if a != v and a not in start)   # (set: hash-seed order)
             if anc:
                 add_edge(v, rnd.choice(anc))
         else:
